@@ -223,6 +223,27 @@ def build_tasks(seed, tier='quick'):
                                     tasks.append(dict(base, kind='kwarg_array_nonfinite', param=tag, kwarg=par,
                                                       inner=meth, side=side, vclass=vc(bad, xo, pos), bad=bad, pos=pos,
                                                       xorder=xo, claimed=True))
+            # (d3) every entry path of the data: objects without x (first / later call), functional interface
+            if two_d:
+                paths = ('noXZ_first', 'noXZ_second', 'onlyX_first', 'onlyX_second', 'onlyZ_first', 'onlyZ_second')
+            else:
+                paths = ('noX_first', 'noX_second') + (() if name == 'interp_pts' else ('func_noX', 'func_X'))
+            for path in paths:
+                second = path.endswith('_second')
+                combos = ([('nan', 'interior'), ('pos_inf', 'first'), ('neg_inf', 'last')] if second else
+                          [(b, q) for b in ('nan', 'pos_inf', 'neg_inf') for q in ('first', 'interior', 'last')])
+                for bad, pos in combos:
+                    tasks.append(dict(base, kind='entry_nonfinite', param=f'data[{path}]', path=path,
+                                      vclass=f'{bad}@{pos}', bad=bad, pos=pos, claimed=True))
+                shapes = ['scalar', 'extra_dim'] + (['short', 'long'] if (second or path == 'func_X'
+                                                                          or path.startswith('only')) else [])
+                for shp in shapes:
+                    tasks.append(dict(base, kind='entry_shape', param=f'data[{path}]', path=path,
+                                      vclass=f'shape:{shp}', shape=shp, claimed=True))
+            # negative control: check_finite=False objects must not reject nan data in the validation
+            for path in (('ctl_X', 'ctl_noX') if not two_d else ('ctl_XZ', 'ctl_noXZ')):
+                tasks.append(dict(base, kind='control_nocheck', param=f'data[{path}]', path=path,
+                                  vclass='nan@interior', bad='nan', pos='interior', claimed=False))
             # (e) unknown method name
             if 'method' in params:
                 for bogus in ('not_a_method', 'asls_', ''):
@@ -423,6 +444,8 @@ def run_task(t):
                     fit.arpls(y, lam=1e2)
                 else:
                     fit.arpls(y, lam=1e3)
+            elif kind in ('entry_nonfinite', 'entry_shape', 'control_nocheck'):
+                _entry_call(t, name, two_d, x, z, y)
             elif kind == 'x_nonfinite':
                 if two_d:
                     xx, zz = x.copy(), z.copy()
@@ -436,8 +459,70 @@ def run_task(t):
             else:
                 return 'harness-error', f'unknown kind {kind}'
         except Exception as exc:  # noqa
+            if kind == 'control_nocheck':
+                return ('validation-raised' if _raised_in_validation(exc) else 'other:' + type(exc).__name__,
+                        str(exc)[:120])
             return type(exc).__name__, str(exc)[:160]
     return 'returned', ''
+
+
+def _raised_in_validation(exc):
+    """did the exception pass through a frame of pybaselines/_validation.py?"""
+    tb = exc.__traceback__
+    while tb is not None:
+        if tb.tb_frame.f_code.co_filename.replace('\\', '/').endswith('pybaselines/_validation.py'):
+            return True
+        tb = tb.tb_next
+    return False
+
+
+def _entry_call(t, name, two_d, x, z, y):
+    """One call through a given entry path (fresh objects for every case)."""
+    import importlib
+    from pybaselines import Baseline, Baseline2D
+    path = t['path']
+    if t['kind'] == 'entry_shape':
+        shp = t['shape']
+        if shp == 'scalar':
+            yy = 3.0
+        elif shp == 'extra_dim':
+            yy = np.array([y, y, y]) if not (name == 'collab_pls') else np.array([[y, y], [y, y], [y, y]])
+        elif not two_d:
+            yy = y[:-1] if shp == 'short' else np.concatenate([y, y[:1]])
+        else:
+            if path.startswith('onlyZ'):
+                yy = y[:, :-1] if shp == 'short' else np.hstack([y, y[:, :1]])
+            else:
+                yy = y[:-1] if shp == 'short' else np.vstack([y, y[:1]])
+    else:
+        yy = y.copy()
+        yy[positions(yy.shape, t['pos'])] = BADVAL[t['bad']]
+
+    def wrap(d):
+        # collab_pls takes a data set
+        if name == 'collab_pls' and isinstance(d, np.ndarray) and d.ndim == (2 if two_d else 1):
+            return np.array([d, d * 1.1 + 1])
+        return d
+
+    kw = M.call_kwargs(name, two_d)
+    if name == 'interp_pts':
+        kw = dict(kw, baseline_points=np.array([[x[0], 1.0], [x[len(x) // 2], 2.0], [x[-1], 1.5]]))
+    if path in ('func_noX', 'func_X'):
+        func = getattr(importlib.import_module('pybaselines.' + t['module']), name)
+        if path == 'func_X':
+            kw['x_data'] = x
+        return func(wrap(yy), **kw)
+    if path.startswith('ctl'):
+        fit = ((Baseline2D(x, z, check_finite=False) if path == 'ctl_XZ' else Baseline2D(check_finite=False))
+               if two_d else (Baseline(x, check_finite=False) if path == 'ctl_X' else Baseline(check_finite=False)))
+        return getattr(fit, name)(wrap(yy), **kw)
+    if two_d:
+        fit = {'noXZ': Baseline2D(), 'onlyX': Baseline2D(x_data=x), 'onlyZ': Baseline2D(z_data=z)}[path.split('_')[0]]
+    else:
+        fit = Baseline()
+    if path.endswith('_second'):
+        getattr(fit, name)(wrap(y), **M.call_kwargs(name, two_d) if name != 'interp_pts' else kw)
+    return getattr(fit, name)(wrap(yy), **kw)
 
 
 def expected_ok(t, outcome):
